@@ -1,66 +1,49 @@
 #!/venv/bin/python
-"""Regenerates MANIFEST.json from the table below (kept valid at all times)."""
+"""Regenerates MANIFEST.json from the drivers' own MANIFEST tables (kept
+valid at all times).  A property with a driver module dtmc/props/cNN.py that
+defines MANIFEST is claimed; every other property is listed under
+not_applicable with the reason given in NOT_CLAIMED below."""
+import importlib
 import json
 import os
+import sys
 
 HERE = os.path.dirname(os.path.dirname(os.path.abspath(__file__)))
+sys.path.insert(0, HERE)
+sys.path.insert(0, os.environ.get('VERIF_SRC', '/repo/src'))
 
 ALL = ['C%02d' % i for i in range(1, 21)]
 
-# property -> (category, technique, text, note, design_ref)
-CHECKS = {
-    'C11': (
-        'model_checking',
-        'exhaustive grid enumeration + explicit-state walk of the batch '
-        'navigation graph on the real renderer',
-        'Every tuple of the 5-dimensional batch parameter grid (per tier) is '
-        'executed on the real code (opt(), rendered dtml-in with literals and '
-        'through variables) and judged against a reference window model; the '
-        'navigation graph (windows = states, printed next/previous start '
-        'numbers = transitions) is walked to its end for every '
-        '(length,size,orphan,overlap<size).',
-        'Trusted: the 15-line reference window model in dtmc/props/c11.py; '
-        'integer elements in a list; the exact window is pinned only for the '
-        'start+size form as the statement says.',
-        'DESIGN.md section 4, C11'),
-    'C09': (
-        'model_checking',
-        'exhaustive enumeration of conditional chains; output and ordered '
-        'call trace compared with a reference interpreter for every case',
-        'All if/elif/else chains up to 4 (quick) / 5 (thorough) conditions '
-        'over four condition kinds, every truth assignment, else/no else and '
-        'every re-reference form, plus unless and call, are rendered on the '
-        'real code; text and the ordered log of invoked namespace callables '
-        'must equal the trace predicted by the reference interpreter '
-        '(dtmc/refsem.py).',
-        'Trusted: the reference interpreter (written from the statement, '
-        'imports nothing from DocumentTemplate); logging callables are the '
-        'only observed side-effect channel.',
-        'DESIGN.md section 4, C09'),
-}
-
 NOT_YET = 'check not built yet in this revision of /verif (work in progress)'
+NOT_CLAIMED = {}
 
 
 def main():
     checks = []
+    claimed = []
     for pid in ALL:
-        if pid not in CHECKS:
+        path = os.path.join(HERE, 'dtmc', 'props', pid.lower() + '.py')
+        if not os.path.exists(path):
             continue
-        cat, tech, text, note, ref = CHECKS[pid]
-        checks.append({
+        mod = importlib.import_module('dtmc.props.' + pid.lower())
+        m = getattr(mod, 'MANIFEST', None)
+        if not m:
+            continue
+        claimed.append(pid)
+        entry = {
             'property_id': pid,
             'quick_cmd': './check %s --tier quick' % pid,
             'thorough_cmd': './check %s --tier thorough' % pid,
             'evidence_file': 'evidence/%s.json' % pid,
             'replay_cmd_template': './check %s --replay {path}' % pid,
             'engine': 'dtmc',
-            'level_claimed': {'category': cat, 'text': text,
-                              'design_ref': ref},
-            'level_note': note,
-            'technique': tech,
-        })
-    m = {
+            'level_claimed': {'category': mod.LEVEL, 'text': m['text'],
+                              'design_ref': 'DESIGN.md section 4, %s' % pid},
+            'level_note': m['note'],
+            'technique': m['technique'],
+        }
+        checks.append(entry)
+    man = {
         'version': 1,
         'setup_cmd': 'sh -c \'test -x ./check && /venv/bin/python -c '
                      '"import sys; sys.path.insert(0, \\"/repo/src\\"); '
@@ -80,7 +63,7 @@ def main():
         'engines': [{
             'name': 'dtmc',
             'path': 'dtmc/',
-            'serves_properties': sorted(CHECKS),
+            'serves_properties': claimed,
             'kind_free_text': 'hand-written bounded exhaustive explorer for '
                               'Python: enumerates a finite case space '
                               'completely, executes every case on the working '
@@ -91,12 +74,14 @@ def main():
         'notes': 'All checks import DocumentTemplate from /repo/src (or '
                  '$VERIF_SRC) at run time; nothing is built or cached. '
                  'known_findings.json lists genuine defects (known / fixed).',
-        'not_applicable': [{'property_id': p, 'reason': NOT_YET}
-                           for p in ALL if p not in CHECKS],
+        'not_applicable': [{'property_id': p,
+                            'reason': NOT_CLAIMED.get(p, NOT_YET)}
+                           for p in ALL if p not in claimed],
     }
     with open(os.path.join(HERE, 'MANIFEST.json'), 'w') as f:
-        json.dump(m, f, indent=1)
+        json.dump(man, f, indent=1)
         f.write('\n')
+    print('claimed:', ' '.join(claimed))
 
 
 if __name__ == '__main__':
